@@ -43,6 +43,7 @@ type c03Case struct {
 	WOne     int       `json:"w_one"`
 	WRand    int       `json:"w_rand"`
 	Clients  int       `json:"clients"`
+	Listener string    `json:"listener"` // plain | tls | ratelimit
 }
 
 func genC03Script(t *tape.Tape, tier string) c03Script {
@@ -94,6 +95,7 @@ func genC03(t *tape.Tape, tier string) any {
 	c.WOne = t.Pick(6, 2, 1)
 	c.WRand = t.Pick(2, 4, 2) * 2
 	c.Clients = 1 + t.Pick(6, 2, 1)
+	c.Listener = []string{"plain", "tls", "ratelimit"}[t.Pick(5, 2, 2)]
 	if t.Chance(1, 6) {
 		c.Fault = []string{"client-rst", "target-rst"}[t.Intn(2)]
 		c.FaultAt = t.Intn(8)
@@ -382,6 +384,15 @@ func runC03(env *core.Env, ci any) {
 		},
 		Config: func(cfg *forwarder.HTTPProxyConfig) {
 			cfg.ProxyLocalhost = forwarder.AllowProxyLocalhost
+			switch c.Listener {
+			case "tls":
+				cp, kp := simtls.PEMPair(ca.ValidLeaf("proxy.example", ipSUT))
+				cfg.Protocol = forwarder.HTTPSScheme
+				cfg.CertFile, cfg.KeyFile = simtls.DataURI(cp), simtls.DataURI(kp)
+			case "ratelimit":
+				// limits far above anything this world transfers: the wrapper is on the path, throttling is not
+				cfg.ReadLimit, cfg.WriteLimit = 1<<40, 1<<40
+			}
 			var ui *url.Userinfo
 			if c.Auth {
 				ui = url.UserPassword(upUser, upPass)
@@ -419,6 +430,14 @@ func runC03(env *core.Env, ci any) {
 				return
 			}
 			raw := conn.(*simnet.Conn)
+			if c.Listener == "tls" {
+				tc := tls.Client(conn, &tls.Config{RootCAs: ca.Pool(), ServerName: "proxy.example"})
+				if err := tc.Handshake(); err != nil {
+					t.failed = "TLS handshake with proxy: " + err.Error()
+					return
+				}
+				conn = tc
+			}
 			ep := &c03Endpoint{name: "client", conn: conn, raw: raw, script: c.Client, recvID: uint64(t.idx)*2 + 1000 + env.Seed<<8,
 				sendID: uint64(t.idx)*2 + 1001 + env.Seed<<8, faultAt: -1}
 			if c.Fault == "client-rst" {
@@ -642,7 +661,7 @@ func init() {
 		Gen: genC03, Run: runC03,
 		Shape: func(ci any) string {
 			c := ci.(*c03Case)
-			return fmt.Sprintf("%s/cap%d/cw%d/tw%d/co%v/ea%v/h10%v/wf%d,%d/f%s/n%d", c.Route, c.Cap, len(c.Client.Writes), len(c.Target.Writes), c.Coalesce, c.Early, c.HTTP10, c.Client.WaitPeerFIN, c.Target.WaitPeerFIN, c.Fault, c.Clients)
+			return fmt.Sprintf("%s/%s/cap%d/cw%d/tw%d/co%v/ea%v/h10%v/wf%d,%d/f%s/n%d", c.Route, c.Listener, c.Cap, len(c.Client.Writes), len(c.Target.Writes), c.Coalesce, c.Early, c.HTTP10, c.Client.WaitPeerFIN, c.Target.WaitPeerFIN, c.Fault, c.Clients)
 		},
 		Real: append([]string{"internal/martian tunnel(), bicopy, copier, drainBuffer, asCloseWriter (copy.go, close.go)", "dialvia HTTP/HTTPS/SOCKS5 dialers", "golang.org/x/net/proxy SOCKS5 client"}, realForwarder...),
 		Stub: stubCommon,
